@@ -14,6 +14,8 @@ PATTERNS = ["^a", "b$", "^[a-c]$", "a|b", ".", "^$", "x", "[0-9]", "^é", "^.{2}
 BAD_PATTERNS = ["(", "[a", "*a", "a{2,1}", "\\", "(?<n>a)", "a**"]
 STRS = ["", "a", "b", "ab", "abc", "é", "éa", "日本", "x", "1", "a1", "😀"]
 NUMS = ["0", "1", "-1", "2", "3", "0.5", "1.5", "2.5", "-0.5", "4", "10", "0.25", "7", "100", "1e2", "2.0", "-3"]
+# integral values beyond the int64 range that are exact float64s (type "integer" must still hold)
+HUGE = ["1e19", "-1e19", "18446744073709551616", "9223372036854775808", "-9223372036854775808", "1e15", "2251799813685248.5"]
 MULTS = ["1", "2", "0.5", "0.25", "3", "1.5", "10"]
 TYPES = ["null", "boolean", "object", "array", "number", "string", "integer"]
 D7_URIS = ["http://json-schema.org/draft-07/schema#", "https://json-schema.org/draft-07/schema#"]
@@ -34,8 +36,9 @@ class Ctx:
         self.features = set()
 
 
-def gen_value(rng, depth=2):
-    """A JSON value from the shared pools."""
+def gen_value(rng, depth=2, huge=False):
+    """A JSON value from the shared pools (huge: also integral values beyond int64; never together with multipleOf, whose float
+    quotient is only exact below 2^53)."""
     r = rng.random()
     if depth <= 0 or r < 0.55:
         k = rng.random()
@@ -44,28 +47,28 @@ def gen_value(rng, depth=2):
         if k < 0.24:
             return rng.random() < 0.5
         if k < 0.62:
-            return Num(rng.choice(NUMS))
+            return Num(rng.choice(NUMS) if not huge or rng.random() < 0.9 else rng.choice(HUGE))
         return rng.choice(STRS)
     if r < 0.78:
-        return [gen_value(rng, depth - 1) for _ in range(rng.randint(0, 4))]
+        return [gen_value(rng, depth - 1, huge) for _ in range(rng.randint(0, 4))]
     ks = rng.sample(NAMES, rng.randint(0, 4))
-    return Obj([(k, gen_value(rng, depth - 1)) for k in ks])
+    return Obj([(k, gen_value(rng, depth - 1, huge)) for k in ks])
 
 
-def gen_instance(rng, depth=3):
+def gen_instance(rng, depth=3, huge=False):
     r = rng.random()
     if r < 0.35:
         ks = rng.sample(NAMES, rng.randint(0, 4))
         if rng.random() < 0.1:
             ks.append(rng.choice(["e", "ab", "x1", "é"]))
-        return Obj([(k, gen_value(rng, depth - 1)) for k in ks])
+        return Obj([(k, gen_value(rng, depth - 1, huge)) for k in ks])
     if r < 0.6:
         n = rng.randint(0, 5)
-        items = [gen_value(rng, depth - 1) for _ in range(n)]
+        items = [gen_value(rng, depth - 1, huge) for _ in range(n)]
         if n >= 2 and rng.random() < 0.3:
             items[rng.randrange(n)] = items[rng.randrange(n)]
         return items
-    return gen_value(rng, depth)
+    return gen_value(rng, depth, huge)
 
 
 # ---------------------------------------------------------------------------------------------
@@ -76,7 +79,7 @@ KW_COMMON = [
     ("allOf", 5), ("anyOf", 5), ("oneOf", 4), ("not", 3), ("if", 4),
     ("contains", 3), ("minItems", 2), ("maxItems", 2), ("uniqueItems", 2),
     ("properties", 9), ("patternProperties", 4), ("additionalProperties", 5), ("propertyNames", 2),
-    ("minProperties", 2), ("maxProperties", 2), ("required", 4), ("ref", 5), ("meta", 2),
+    ("minProperties", 2), ("maxProperties", 2), ("required", 4), ("ref", 5), ("meta", 2), ("lengths", 3), ("bounds", 2),
 ]
 KW_2020 = [("prefixItems", 4), ("items", 5), ("minContains", 2), ("maxContains", 2), ("unevaluatedItems", 4),
            ("unevaluatedProperties", 5), ("dependentRequired", 2), ("dependentSchemas", 3), ("anchor", 2)]
@@ -122,7 +125,7 @@ def leaf_schema(c):
     o = Obj()
     for _ in range(rng.choice([1, 1, 2])):
         add_keyword(c, o, rng.choice(["type", "const", "enum", "minimum", "maximum", "minLength", "pattern", "multipleOf",
-                                      "maxLength", "required", "type", "minItems", "maxProperties"]), 0)
+                                      "maxLength", "required", "type", "minItems", "maxProperties", "lengths", "type"]), 0)
     return o
 
 
@@ -159,6 +162,15 @@ def add_keyword(c, o, kw, depth):
             o.set("contains", gen_schema(c, depth - 1))
     elif kw == "pattern":
         o.set("pattern", rng.choice(PATTERNS))
+    elif kw == "lengths":
+        # both length bounds in one schema object (code points vs bytes matter for multi-byte strings)
+        lo = rng.randint(0, 3)
+        o.set("minLength", Num(str(lo)))
+        o.set("maxLength", Num(str(rng.randint(lo, lo + 8))))
+    elif kw == "bounds":
+        lo = rng.choice(NUMS)
+        o.set(rng.choice(["minimum", "exclusiveMinimum"]), Num(lo))
+        o.set(rng.choice(["maximum", "exclusiveMaximum"]), Num(rng.choice(NUMS + HUGE[:3])))
     elif kw in ("allOf", "anyOf", "oneOf"):
         o.set(kw, subs(c, depth))
     elif kw == "not":
